@@ -277,17 +277,23 @@ func runC03(c *Ctx) {
 		c.Saw(refreshFn)
 		rf := w.Facts(refreshFn)
 		var list *ssa.Call
-		for _, cv := range invokeOf(refreshFn, "List") {
+		w.Focus(refreshFn)
+		for _, cv := range w.invokeOfDeep(refreshFn, "List") {
 			list = cv
 		}
 		nRem := 0
-		for _, cv := range invokeOf(refreshFn, "Remove") {
+		for _, cv := range w.invokeOfDeep(refreshFn, "Remove") {
 			nRem++
 			// k = element of this activation's listing
 			okK := false
 			var elem ssa.Value
 			if list != nil {
-				if ld, ok := strip(cv.Call.Args[0]).(*ssa.UnOp); ok {
+				arg0 := strip(cv.Call.Args[0])
+				if p, isParam := arg0.(*ssa.Parameter); isParam {
+					// the removal sits in a helper or in a callback: the argument it was given
+					arg0 = strip(w.resolveUp(refreshFn, p))
+				}
+				if ld, ok := arg0.(*ssa.UnOp); ok {
 					if ia, ok := ld.X.(*ssa.IndexAddr); ok && ia.X == extractOf(list, 0) && isForwardRangeIndex(ia.Index) {
 						okK = true
 						elem = ld
@@ -308,7 +314,28 @@ func runC03(c *Ctx) {
 			c.Check(okFilter, "R3.refresh", "refresh|removal only when the handler's filter accepts the identity", w.Pos(cv.Pos()), "must-fact opt.KeyRefreshFilter(k) == true", "an identity can be removed without the must-fact that the handler's filter selected that very identity")
 			// a refused removal fails the refresh (otherwise the old generation stays next to the new one and the run
 			// still reports success)
-			c.Check(w.ErrEdgeEnds(refreshFn, ssa.Value(cv)), "R3.refresh", "refresh|a failed removal fails the refresh", w.Pos(cv.Pos()), "wherever Remove's error is non-nil control only reaches returns of a non-nil error", "the error of agent.Remove is dropped or only logged: an identity the agent refused to remove stays while the run goes on to add the new generation")
+			ends := w.ErrEdgeEnds(refreshFn, ssa.Value(cv))
+			if g := cv.Parent(); !ends && g != refreshFn {
+				// in a helper / callback: the error ends it (or is handed straight back) and its failure ends the refresh
+				direct := false
+				if idx := errorResultIndex(g); idx >= 0 {
+					direct = true
+					reach := ReachableAvoiding(cv, nil)
+					n := 0
+					for _, r := range liveReturns(g) {
+						if !reach(r) {
+							continue
+						}
+						n++
+						if idx >= len(r.Results) || throughCell(strip(r.Results[idx])) != ssa.Value(cv) {
+							direct = false
+						}
+					}
+					direct = direct && n > 0
+				}
+				ends = (direct || w.ErrEdgeEnds(g, ssa.Value(cv))) && w.failurePropagates(refreshFn, g)
+			}
+			c.Check(ends, "R3.refresh", "refresh|a failed removal fails the refresh", w.Pos(cv.Pos()), "wherever Remove's error is non-nil control only reaches returns of a non-nil error", "the error of agent.Remove is dropped or only logged: an identity the agent refused to remove stays while the run goes on to add the new generation")
 		}
 		c.Floor("R3.refresh", nRem, 1, "agent.Remove in the refresh step")
 		c.Check(len(invokeOf(refreshFn, "RemoveAll")) == 0, "R3.refresh", "refresh|no RemoveAll", w.FnPos(refreshFn), "none", "the refresh step wipes the whole agent")
